@@ -115,6 +115,7 @@ type ConnCfg struct {
 	DialDelayMs    int    `json:"dialDelayMs,omitempty"`
 	Storage        string `json:"storage,omitempty"` // "" (library default) | payload | nopayload
 	NodeID         string `json:"nodeID,omitempty"`
+	CloseDelayMs   int    `json:"closeDelayMs,omitempty"`   // the client transport's Close blocks that long (closing handshake with a silent peer)
 	Unreliable     bool   `json:"unreliable,omitempty"`     // offer a second, unreliable transport (AsUnreliable)
 	Encoding       string `json:"encoding,omitempty"`       // "" = protobuf (library default) | "json"
 	AliasReuse     bool   `json:"aliasReuse,omitempty"`     // the broker hands out the stream aliases of closed upstreams again
@@ -200,6 +201,7 @@ func NewDriver(sc *Scenario) *Driver {
 		d.wd = time.Duration(sc.WdMs) * time.Millisecond
 	}
 	d.b.Unreliable = sc.Conn.Unreliable
+	d.b.CloseDelayMs = sc.Conn.CloseDelayMs
 	if sc.Conn.DialDelayMs > 0 {
 		d.b.dialDef = DialStep{Do: "ok", DelayMs: sc.Conn.DialDelayMs}
 	}
